@@ -68,6 +68,25 @@ Theorem C03_no_strand_event_except : forall es so now0, forallb no_clock es = tr
 Proof. exact no_strand_const_clock. Qed.
 Print Assumptions C03_no_strand_event_except.
 
+(* ... and more generally after EVERY history, moving clock included, in which no outstanding request
+   reaches the expiry age: at each clock event every outstanding request is younger than 2 s at the new
+   time (young_run, executable). These are exactly the histories outside the known finding below. *)
+Theorem C03_no_strand_without_expiry : forall es so now0, young_run [] so now0 es = true ->
+  let '(t, _, _, _, _) := tab_run [] so now0 es in
+  forall a, n_held (get t a) <> [] -> unblocked t a -> head_blocked_by_budget t a.
+Proof. exact no_strand_without_expiry. Qed.
+Print Assumptions C03_no_strand_without_expiry.
+
+(* non-vacuous: a history whose clock moves (requests answered within a second, new ones sent later,
+   a message deferred and released) satisfies young_run; the refutation witness below does not *)
+Example C03_without_expiry_nonvacuous :
+  young_run [] true 0
+    [FTime 1000; FSend (1,0,0) 6 []; FSend (1,0,0) 6 []; FSend (1,0,0) 6 []; FSend (1,0,0) 6 []; FSend (1,0,0) 6 [];
+     FSend (1,0,0) 6 []; FSend (1,0,0) 5 []; FTime 1001; FUp [1] 133 0; FUp [1] 133 0; FUp [1] 133 0; FUp [1] 133 0; FUp [1] 133 0; FUp [1] 133 0;
+     FTime 1002; FSend (1,0,0) 6 []; FUp [1] 132 0; FTime 1003; FUp [1] 133 0] = true /\
+  young_run [] true 0 [FTime 1000; FSend (1,0,0) 6 []; FTime 1005; FUp [1] 161 0] = false.
+Proof. vm_compute. split; reflexivity. Qed.
+
 (* REFUTED on the faithful model (known finding strand.lazy-expiry): a history after which a held
    message fits the budget of live requests and nothing is stalled, yet it is still held.
    6 x SYS_GET_SW_VERSION (7 bytes each), 1 x SYS_GET_UNIQUE_ID (11) deferred, clock +5 s, two
